@@ -82,6 +82,14 @@ _Bool vf_canary;            /* always 0: clauses `X || vf_canary` must FAIL when
 #define CNT_POS(in) ((in)->_b0.m_current.line>=1 && (in)->_b0.m_current.column>=1)
 #define ITER_UNCHANGED(in) (CUR(in)==OLD(CUR(in)) && (in)->_b0.m_current.byte==OLD((in)->_b0.m_current.byte) \\
    && (in)->_b0.m_current.line==OLD((in)->_b0.m_current.line) && (in)->_b0.m_current.column==OLD((in)->_b0.m_current.column))
+/* every rule keeps the counters within what the consumed bytes allow (consequence of RC-POS) */
+#define CNT_BOUNDED_BY(in, b0, l0, c0, off0) ((in)->_b0.m_current.byte == (b0) + (OFF(CUR(in)) - (off0)) \
+   && (in)->_b0.m_current.line >= (l0) && (in)->_b0.m_current.line <= (l0) + (OFF(CUR(in)) - (off0)) \
+   && (in)->_b0.m_current.column >= 1 && (in)->_b0.m_current.column <= (c0) + (OFF(CUR(in)) - (off0)))
+#define CNT_BOUNDED(in) CNT_BOUNDED_BY(in, OLD(BYTE(in)), OLD(LINE(in)), OLD(COL(in)), OFF(OLD(CUR(in))))
+#define CNT_BOUNDED_LOOP(in) CNT_BOUNDED_BY(in, __CPROVER_loop_entry(BYTE(in)), __CPROVER_loop_entry(LINE(in)), __CPROVER_loop_entry(COL(in)), OFF(__CPROVER_loop_entry(CUR(in))))
+#define CNT_LOOP_OK(in) (CNT_BOUNDED_BY(in, g_e_byte, g_e_line, g_e_col, g_e_off) && g_e_byte < ((size_t)1<<62) && g_e_line < ((size_t)1<<62) && g_e_col < ((size_t)1<<62))   /* relative to the entry iterator of the combinator */
+#define CNT_LT63(in) ((in)->_b0.m_current.byte < ((size_t)1<<63) && (in)->_b0.m_current.line < ((size_t)1<<63) && (in)->_b0.m_current.column < ((size_t)1<<63))
 #define LINE(in) ((in)->_b0.m_current.line)
 #define COL(in) ((in)->_b0.m_current.column)
 #define BYTE(in) ((in)->_b0.m_current.byte)
@@ -98,6 +106,10 @@ _Bool vf_canary;            /* always 0: clauses `X || vf_canary` must FAIL when
 #define IT_FIELDS(in) (in)->_b0.m_current
 #define CNT_OK(in) 1
 #define CNT_POS(in) 1
+#define CNT_BOUNDED(in) 1
+#define CNT_BOUNDED_LOOP(in) 1
+#define CNT_LOOP_OK(in) 1
+#define CNT_LT63(in) 1
 #define ITER_UNCHANGED(in) (CUR(in)==OLD(CUR(in)))
 #define POS_AGREE(in, eolch) 1
 '''
@@ -196,11 +208,11 @@ def comb_prelude(tracking):
 /* ---- ghost protocol state ---- */
 #define NR %d
 #define T_NONE (-1)
-int g_turn; size_t g_pos; int g_done; size_t g_iter;
+int g_turn; size_t g_pos; int g_done; size_t g_iter; int g_last;   /* g_last: index of the sub-rule called last */
 int g_called[NR]; int g_ok[NR]; size_t g_len[NR]; size_t g_ncalls[NR];
 unsigned long g_exc_obj; int g_exc_type;
 size_t g_e_off, g_e_byte, g_e_line, g_e_col;          /* entry iterator of the combinator under proof */
-#define VALID_STUB(in) (__CPROVER_r_ok(in,sizeof(*(in))) && PTRS_OK(in) && CNT_POS(in))
+#define VALID_STUB(in) (__CPROVER_r_ok(in,sizeof(*(in))) && PTRS_OK(in) && CNT_POS(in) && CNT_LT63(in))
 #define EXC_OK (vf_exc.pending == 0)
 #define BOOL01(x) ((x) == 0 || (x) == 1)
 #define SATINC(x) ((x) < ((size_t)1<<60) ? (x) + 1 : (x))   /* ghost iteration counter saturates: no wrap-around */
@@ -248,11 +260,12 @@ def rule_stub(spec, param='in'):
             c.add(R('AT_ENTRY(%s)' % param, 'stub-at-entry-iterator', ('C01', 'C02')))
         for extra in s.get('requires', []):
             c.add(extra)
-        c.add(A('IT_FIELDS(%s), g_turn, g_pos, g_done, g_iter, g_called[%d], g_ok[%d], g_len[%d], g_ncalls[%d], vf_exc, g_exc_obj, g_exc_type' % (param, i, i, i, i)))
+        c.add(A('IT_FIELDS(%s), g_turn, g_pos, g_done, g_iter, g_last, g_called[%d], g_ok[%d], g_len[%d], g_ncalls[%d], vf_exc, g_exc_obj, g_exc_type' % (param, i, i, i, i)))
         c.add(E('BOOL01(RET) && BOOL01(g_ok[%d]) && BOOL01(vf_exc.pending) && BOOL01(g_done)' % i, 'stub'))
         c.add(E('PTRS_OK(%s) && CNT_POS(%s) && IN_END(%s)==OLD(IN_END(%s)) && IN_BEGIN(%s)==OLD(IN_BEGIN(%s))' % ((param,) * 6), 'stub'))
         c.add(E('MONO(%s)' % param, 'stub'))
-        c.add(E('g_called[%d] == 1 && g_ncalls[%d] == OLD(g_ncalls[%d]) + 1' % (i, i, i), 'stub'))
+        c.add(E('CNT_LT63(%s)' % param, 'stub'))   # counters stay below 2^63: entry < 2^62, window <= 4096, every rule moves them by at most the bytes it consumes (RC-POS)
+        c.add(E('g_called[%d] == 1 && g_ncalls[%d] == SATINC(OLD(g_ncalls[%d])) && g_last == %d' % (i, i, i, i), 'stub'))
         c.add(E('vf_exc.pending ==> (g_turn == T_NONE && vf_exc.obj == g_exc_obj && vf_exc.type == g_exc_type && g_exc_obj != 0)', 'stub'))
         c.add(E('!vf_exc.pending ==> (RET == g_ok[%d])' % i, 'stub'))
         c.add(E('(!vf_exc.pending && g_ok[%d]) ==> (CONSUMED(%s) == g_len[%d] && g_turn == (%s) && g_pos == OFF(CUR(%s)) && g_done == 0 && g_iter == SATINC(OLD(g_iter)))'
@@ -279,7 +292,7 @@ def comb_requires(param='in'):
 
 
 def comb_assigns(param='in'):
-    return A('IT_FIELDS(%s), g_turn, g_pos, g_done, g_iter, g_called, g_ok, g_len, g_ncalls, vf_exc, g_exc_obj, g_exc_type' % param)
+    return A('IT_FIELDS(%s), g_turn, g_pos, g_done, g_iter, g_last, g_called, g_ok, g_len, g_ncalls, vf_exc, g_exc_obj, g_exc_type' % param)
 
 
 def comb_common(m, param='in', props_rewind=('C02',), exc_props=('C05',)):
